@@ -52,6 +52,9 @@ pub(crate) async fn validate_bands(
             monitor.error(err);
             continue 'band;
         };
+        if let Err(err) = validate_index_hunk_count(&band).await {
+            monitor.error(err);
+        }
         let st = match archive
             .open_stored_tree(BandSelectionPolicy::Specified(*band_id))
             .await
@@ -72,6 +75,31 @@ pub(crate) async fn validate_bands(
         merge_block_lens(&mut block_lens, &band_block_lens);
     }
     Ok(block_lens)
+}
+
+/// Check that every index hunk counted in the band tail is present and readable.
+///
+/// Listing the index silently skips hunks that are missing or cannot be decoded, so a
+/// damaged hunk would otherwise go unnoticed although its files can no longer be restored.
+async fn validate_index_hunk_count(band: &Band) -> Result<()> {
+    if let Some(count) = band.get_info().await?.index_hunk_count {
+        let mut index = band.index();
+        for hunk_number in 0..count {
+            let readable = match u32::try_from(hunk_number) {
+                Ok(n) => matches!(index.read_hunk(n).await, Ok(Some(_))),
+                Err(_) => false,
+            };
+            if !readable {
+                let band_id = band.id();
+                return Err(Error::InvalidMetadata {
+                    details: format!(
+                        "{band_id}: index hunk {hunk_number} of {count} is missing or unreadable"
+                    ),
+                });
+            }
+        }
+    }
+    Ok(())
 }
 
 fn merge_block_lens(into: &mut HashMap<BlockHash, u64>, from: &HashMap<BlockHash, u64>) {
